@@ -463,13 +463,42 @@ Fixpoint disagreeing_cf (i : nat) (cs : list (option (func * list string) * opti
    D = the value names visible at this point (every one of them bound, under its Python name, to the same tensor);
    NN = the names on which the translation `tr` is injective.  A checker returns the names visible afterwards.
    Covered: plain nodes (as Export/Emit.v), If (both branches), Loop in the `while` form whose body does not read its
-   condition input, Loop in the `for` form whose body passes the condition through as its last node (or directly);
-   bodies nested to any depth.  Everything else (`for` + break, Scan, ...) -> None. *)
+   condition input, Loop in the `for` form whose body passes the condition through as its last node (or directly),
+   and -- when the flag `brk` is set -- Loop in the `for` + `if not c: break` form with a condition input whose body
+   does not read it; bodies nested to any depth.  Everything else (Scan, ...) -> None. *)
 Fixpoint seqokb (L R : list string) : bool :=
   match L, R with
   | x :: l, _ :: r => negb (memb x r) && seqokb l r
   | _, _ => true
   end.
+
+(* the exact condition under which the lines compute the simultaneous assignment (Export/SeqAssign.v): no target is
+   overwritten with ANOTHER variable's value and read by a later line *)
+Fixpoint hazardb (L R : list string) : bool :=
+  match L, R with
+  | x :: l, y :: r => (negb (String.eqb x y) && memb x r) || hazardb l r
+  | _, _ => false
+  end.
+
+(* repair variant "refuse": a Loop whose body returns one of its own inputs at a later position raises a descriptive
+   error instead of printing sequential copies that would read an overwritten variable (decided on the ONNX names) *)
+Definition loop_hazard (ins : list (option vname)) (body : graph) : bool :=
+  match loop_form_of ins body, g_ins body, g_outs body with
+  | Some form, _ :: cin :: fins, cout :: fouts =>
+    let uc := match form with FWhile | FForBreak => true | _ => false end in
+    hazardb ((if uc then [cin] else []) ++ fins)%list ((if uc then [cout] else []) ++ firstn (List.length ins - 2) fouts)%list
+  | _, _, _ => false
+  end.
+Fixpoint hazard_nodes (fuel : nat) (ns : list node) {struct fuel} : bool :=
+  match fuel with
+  | O => false
+  | S fu =>
+    existsb (fun n => let 'Node _ op ins _ _ subs := n in
+                      (String.eqb op "Loop" && match subs with (_, b) :: _ => loop_hazard ins b | [] => false end) ||
+                      existsb (fun sg => hazard_nodes fu (g_nodes (snd sg))) subs) ns
+  end.
+Definition refuse_hazard {A} (flag : bool) (g : graph) (m : option A) : option A :=
+  if flag && hazard_nodes (depth_graph g) (g_nodes g) then None else m.
 
 Section WfCF.
   Variable kw : list string.
@@ -477,6 +506,7 @@ Section WfCF.
   Variable infun : bool.
   Variable rm : remaps.
   Variable NN : list vname.
+  Variable brk : bool.      (* Loop nodes with a trip count AND a condition (`for` + `if not c: break`) are in the class *)
 
   Notation tr := (tr rename rm).
   Notation tv := (tv rename rm).
@@ -586,11 +616,42 @@ Section WfCF.
       | _, _, _ => None
       end.
 
+    (* Loop, `for` + `if not c: break` form: a trip count and a condition input; the body computes the next
+       condition and does not read its condition input *)
+    Definition wf_forbreak (D : list vname) (dom : string) (ins : list (option vname)) (outs : list vname)
+                           (attrs : list (string * attrv)) (subs : list (string * graph)) : option (list vname) :=
+      match ins, attrs, subs with
+      | Some m :: Some c :: actual, [], [(bn, Graph (iv :: cin :: fins) [] nsb (cout :: fouts))] =>
+        let acts := present actual in
+        let n := List.length actual in
+        if String.eqb dom "" && String.eqb bn "body" &&
+           match loop_form_of ins (Graph (iv :: cin :: fins) [] nsb (cout :: fouts)) with Some FForBreak => true | _ => false end &&
+           Nat.eqb (List.length acts) n && forallb (fun a => memb a D) acts &&
+           Nat.eqb (List.length fins) n && Nat.eqb (List.length fouts) n && Nat.eqb (List.length outs) n &&
+           nodupb (iv :: cin :: fins) && freshb D iv && freshb D cin &&
+           forallb (freshb D) fins && forallb (freshb D) outs && nodupb outs &&
+           forallb nonempty fouts && nonempty cout &&
+           nodupb (map tv outs) && seqokb (map tv outs) (map tv fins) &&
+           memb m D && memb c D && nodupb (tr cin :: map tv fins) &&
+           seqokb (tr cin :: map tv fins) (tr c :: map tvo actual) &&
+           seqokb (tr cin :: map tv fins) (tv cout :: map tv fouts)
+        then match wsub (fins ++ iv :: D)%list nsb with
+             | Some Db => if forallb (fun o => memb o Db) (cout :: fouts) then Some (outs ++ D)%list else None
+             | None => None
+             end
+        else None
+      | _, _, _ => None
+      end.
+
     Definition wf_loop (D : list vname) (dom : string) (ins : list (option vname)) (outs : list vname)
                        (attrs : list (string * attrv)) (subs : list (string * graph)) : option (list vname) :=
       match wf_while D dom ins outs attrs subs with
       | Some r => Some r
-      | None => wf_for D dom ins outs attrs subs
+      | None =>
+        match wf_for D dom ins outs attrs subs with
+        | Some r => Some r
+        | None => if brk then wf_forbreak D dom ins outs attrs subs else None
+        end
       end.
 
     Definition wf_node (D : list vname) (n : node) : option (list vname) :=
@@ -622,6 +683,7 @@ Section NestedOk.
   Definition nested_names (rm : remaps) (g : graph) : list vname :=
     filter (fun x => negb (memb x (map fst rm))) (gnames g).
 
+  Variable brk : bool.
   Definition nested_okb (ivals : list (vname * attrv)) (g : graph) : bool :=
     let rm := fst (scan rename infun None false ivals g) in
     let NN := nested_names rm g in
@@ -633,7 +695,7 @@ Section NestedOk.
     forallb (fun x => String.eqb (prename x) (t x)) (g_ins g) &&
     forallb (fun x => String.eqb (t (t x)) (t x)) (g_inits g) &&
     (is_nil ivals || call_okb kw "Constant" []) &&
-    match wf_cf kw rename rm NN (depth_graph g) D0 (g_nodes g) with
+    match wf_cf kw rename rm NN brk (depth_graph g) D0 (g_nodes g) with
     | Some D => forallb (fun o => memb o D) (g_outs g)
     | None => false
     end.
